@@ -87,7 +87,24 @@ def verus_units():
 
 
 def all_units():
-    return kani_units() + verus_units()
+    us = kani_units() + verus_units()
+    # tiers.json: measured tier assignment (quick / thorough / off) decided on a quiet machine; overrides the
+    # authors' annotation. `off` units stay in the harness files but are not run (reason recorded there).
+    tp = os.path.join(ROOT, 'tiers.json')
+    if os.path.exists(tp):
+        import json
+        ov = json.load(open(tp))
+        out = []
+        for u in us:
+            o = ov.get(u['id'])
+            if o:
+                if o.get('tier') == 'off': continue
+                u['tier'] = o.get('tier', u['tier'])
+                if o.get('mem'): u['mem'] = float(o['mem'])
+                if o.get('timeout'): u['timeout'] = int(o['timeout'])
+            out.append(u)
+        us = out
+    return us
 
 
 def select(prop, tier):
